@@ -21,7 +21,7 @@ Definition pdeposit : parser (deposit QS) :=
 
 Definition Qisz (x : QS) : bool := Qc_eq_bool x 0%Qc.
 
-Definition run_c18 (inp : list Z) : list Z :=
+Definition run_one (inp : list Z) : list Z :=
   match inp with
   | 1 :: rest =>      (* shot_noise, method='poisson': img, draw *)
     match pall (ppair parrQ parrQ) rest with
@@ -51,6 +51,32 @@ Definition run_c18 (inp : list Z) : list Z :=
     | Some rays => eresult earrQ (cosmic_rays n m rays)
     | None => emalformed end
   | _ => emalformed
+  end.
+
+(* a call sequence: [len_1; case_1...; len_2; case_2...; ...] -> [len(out_1); out_1...; len(out_2); ...]
+   (the model has no state: every call of a sequence is answered on its own) *)
+Fixpoint run_batch (fuel : nat) (inp : list Z) : option (list Z) :=
+  match inp with
+  | [] => Some []
+  | len :: rest =>
+    match fuel with
+    | O => None
+    | Datatypes.S f =>
+      if len <? 0 then None else
+      let n := Z.to_nat len in
+      if (length rest <? n)%nat then None else
+      let out := run_one (firstn n rest) in
+      match run_batch f (skipn n rest) with
+      | Some r => Some (Z.of_nat (length out) :: out ++ r)
+      | None => None
+      end
+    end
+  end.
+
+Definition run_c18 (inp : list Z) : list Z :=
+  match inp with
+  | 7 :: rest => match run_batch (length rest) rest with Some r => 0 :: r | None => emalformed end
+  | _ => run_one inp
   end.
 
 Definition run := run_c18.
